@@ -318,6 +318,28 @@ static void limit_space (long start, long *pidx)
       one_case (text, "longtoken", 0, 1);
     }
   }
+  /* names of 1..70000 characters: the function name (printed into the listing by every back end when the program is
+   * compiled) and variable names */
+  {
+    static const int nlen[] = { 1, 100, 180, 189, 190, 198, 199, 200, 201, 255, 256, 300, 1000, 5000, 70000 };
+    for (a = 0; a < 15; a++) for (c = 0; c < 2; c++) {
+      long idx = (*pidx)++;
+      size_t o = 0;
+      char sig[64];
+      int j;
+      if (idx < start || (idx % cfg.nshards) != cfg.shard) continue;
+      o += sprintf (text + o, ".function ");
+      if (c == 0) for (j = 0; j < nlen[a]; j++) text[o++] = (char) ('a' + j % 26); else o += sprintf (text + o, "shortname");
+      o += sprintf (text + o, "\n.dest 2 d1\n.source 2 ");
+      if (c == 1) for (j = 0; j < nlen[a]; j++) text[o++] = (char) ('a' + j % 26); else o += sprintf (text + o, "s1");
+      o += sprintf (text + o, "\ncopyw d1, ");
+      if (c == 1) for (j = 0; j < nlen[a]; j++) text[o++] = (char) ('a' + j % 26); else o += sprintf (text + o, "s1");
+      o += sprintf (text + o, "\n");
+      snprintf (sig, sizeof (sig), "%s-name-length=%d", c ? "variable" : "function", nlen[a]);
+      { char k_[260]; snprintf (k_, sizeof k_, "C14|crash|%s", sig); v_case (idx, k_, sig); }
+      one_case (text, sig, 0, 1);
+    }
+  }
   /* many errors in one file */
   for (a = 0; a < 7; a++) {
     long idx = (*pidx)++;
